@@ -173,7 +173,9 @@ pub fn child_main(args: &[String]) -> i32 {
             }
         }
     }
-    0
+    // the process ends here and now, without the runtime's farewell flush of stdout: what an append has returned
+    // from is on the stream already (a crash right after logging must not lose the record)
+    unsafe { libc::_exit(0) }
 }
 
 // ---- pty plumbing ------------------------------------------------------------------------------------------
@@ -392,9 +394,10 @@ fn colour_enabled(cell: &Cell, target_tty: bool, strict_zero: bool) -> bool {
 }
 
 fn env_class(cell: &Cell) -> String {
-    if cell.no_color.as_deref() == Some("1") {
+    let set = |v: &Option<String>| v.as_deref().map_or(false, |s| s != "0");
+    if set(&cell.no_color) {
         "NO_COLOR"
-    } else if cell.clicolor_force.as_deref() == Some("1") {
+    } else if set(&cell.clicolor_force) {
         "CLICOLOR_FORCE"
     } else if cell.clicolor.as_deref() == Some("0") {
         "CLICOLOR=0"
@@ -779,6 +782,13 @@ pub fn run(run: &Run) {
             let mut cell = cell_at(idx, pat);
             // every second pass: the process owns appenders on both streams
             cell.also_other = pass % 2 == 1;
+            // "set" is spelled in many ways: anything but "0" counts
+            let spell = ["1", "true", "yes", "on", "2", "TRUE", "1", "x"][(idx / 5 + pass) % 8];
+            for v in [&mut cell.no_color, &mut cell.clicolor, &mut cell.clicolor_force] {
+                if v.as_deref() == Some("1") {
+                    *v = Some(spell.to_string());
+                }
+            }
             // builder call order and a refused record vary with the cell
             cell.tty_only_first = (idx / 3 + pass) % 2 == 0;
             cell.refuse_one = (idx / 7 + pass) % 3 == 0;
@@ -868,7 +878,7 @@ pub fn replay(part: &str, case: serde_json::Value) -> Option<CaseResult> {
 pub fn meta() -> EvidenceMeta {
     EvidenceMeta {
         level: "exploration",
-        rule: "matrix (exhaustive every run): NO_COLOR, CLICOLOR, CLICOLOR_FORCE each in {unset,\"0\",\"1\"} x stdout in {pty,pipe} x stderr in {pty,pipe} x target x tty_only = 432 child processes, the parent allocates raw-mode ptys with openpty and reads both streams to EOF; per cell the builder is told tty_only before or after the target, the encoder may refuse one record in the middle (later records must still appear), a generated pattern (a highlight group around generated structure, width specs around highlights, nested groups) and five records, one per level; oracle: nothing on the non-target stream; nothing on the target if tty_only and the target is not a terminal, else the reference rendering of the five records after stripping escape sequences; escape sequences (each matching ESC [ digits(;digits)* m) present iff colour is enabled, and then exactly one per style request of the pattern, in its place between the text pieces by the statement's cascade (cells with NO_COLOR=\"0\" or CLICOLOR_FORCE=\"0\" accept both readings), last sequence a reset. literal-args (exhaustive, 60 children): a sixth record whose message is an argument-free literal (short, 4 kB after a line break, 9 kB single line, empty, multi-byte) x target x pty/pipe x {m} / {m}{n} / {h({m})}{n}; styles (exhaustive): AnsiWriter<Vec<u8>>::set_style for all 243 styles after a previous style: exactly one well-formed SGR sequence which a harness SGR interpreter maps from any prior state to exactly the requested attributes; random style pairs and write/set_style interleavings (bytes unchanged). non-trivial = a cell where tty-ness and the colour decision disagree or tty_only meets a pipe / NO_COLOR; a style with all three attributes set".into(),
+        rule: "matrix (exhaustive every run): NO_COLOR, CLICOLOR, CLICOLOR_FORCE each in {unset,\"0\",set (spelled 1/true/yes/on/2/TRUE/x)} x stdout in {pty,pipe} x stderr in {pty,pipe} x target x tty_only = 432 child processes, the parent allocates raw-mode ptys with openpty and reads both streams to EOF; the child ends with _exit right after its last append (no farewell flush); per cell the builder is told tty_only before or after the target, the encoder may refuse one record in the middle (later records must still appear), a generated pattern (a highlight group around generated structure, width specs around highlights, nested groups) and five records, one per level; oracle: nothing on the non-target stream; nothing on the target if tty_only and the target is not a terminal, else the reference rendering of the five records after stripping escape sequences; escape sequences (each matching ESC [ digits(;digits)* m) present iff colour is enabled, and then exactly one per style request of the pattern, in its place between the text pieces by the statement's cascade (cells with NO_COLOR=\"0\" or CLICOLOR_FORCE=\"0\" accept both readings), last sequence a reset. literal-args (exhaustive, 60 children): a sixth record whose message is an argument-free literal (short, 4 kB after a line break, 9 kB single line, empty, multi-byte) x target x pty/pipe x {m} / {m}{n} / {h({m})}{n}; styles (exhaustive): AnsiWriter<Vec<u8>>::set_style for all 243 styles after a previous style: exactly one well-formed SGR sequence which a harness SGR interpreter maps from any prior state to exactly the requested attributes; random style pairs and write/set_style interleavings (bytes unchanged). non-trivial = a cell where tty-ness and the colour decision disagree or tty_only meets a pipe / NO_COLOR; a style with all three attributes set".into(),
         assumptions: vec!["highlight colours themselves are not asserted (documentation and code disagree)".into(), "ptys from libc::openpty; without them the check exits 2, it does not pass".into()],
         mutants_caught: vec![],
     }
